@@ -46,6 +46,20 @@ BOX_XML = """
 """
 
 
+SPHERES_XML = """
+<mujoco>
+  <option timestep="0.00390625"/>
+  <default><geom condim="CONDIM" friction="0.8 0.02 0.01"/></default>
+  <worldbody>
+    <geom type="plane" size="0 0 1"/>
+    <body pos="0 0 0.095"><freejoint/><geom type="sphere" size=".1"/></body>
+    <body pos="0.05 0.03 0.28"><freejoint/><geom type="sphere" size=".1"/></body>
+    <body pos="0.4 0 0.098"><freejoint/><geom type="capsule" size=".1 .1" euler="0 90 0"/></body>
+  </worldbody>
+</mujoco>
+"""
+
+
 def pool():
   import mujoco
 
@@ -68,10 +82,30 @@ def pool():
   P.append({"scene": {"kind": "repo", "path": "collision.xml", "opt": {}}, "model_opts": {"broadphase": 2, "broadphase_filter": 5}, "tag": "collision:sap_seg:filter5"})
   P.append({"scene": {"kind": "repo", "path": "collision.xml", "opt": {}}, "model_opts": {"warn_overflow": False}, "caps": {"nconmax": 2, "njmax": 4}, "tag": "collision:starved:nowarn"})
   P.append({"scene": {"kind": "repo", "path": "humanoid/humanoid.xml", "opt": {}}, "caps": {"njmax": 48, "nconmax": 16}, "tag": "humanoid:njmax48"})
+  # same structure, different maximum contact dimension (kernels specialised on nmaxcondim / cone / jacobian)
+  for cd in (1, 3, 4, 6):
+    xml = SPHERES_XML.replace("CONDIM", str(cd))
+    P.append({"scene": {"kind": "xml", "xml": xml, "opt": {"cone": "elliptic", "jacobian": "sparse"}}, "tag": f"spheres:condim{cd}:elliptic:sparse"})
+  P.append({"scene": {"kind": "xml", "xml": SPHERES_XML.replace("CONDIM", "6"), "opt": {"cone": "pyramidal", "jacobian": "dense"}}, "tag": "spheres:condim6:pyramidal:dense"})
+  P.append({"scene": {"kind": "xml", "xml": SPHERES_XML.replace("CONDIM", "4"), "opt": {"cone": "elliptic", "jacobian": "dense", "solver": "CG"}}, "tag": "spheres:condim4:elliptic:dense:cg"})
+  P.append({"scene": {"kind": "gen", "seed": 424277, "profile": "bigtree"}, "tag": "gen:bigtree"})
   for s in range(6):
     P.append({"scene": {"kind": "gen", "seed": 424200 + s, "profile": ("full", "free", "joints")[s % 3]}, "tag": f"gen{s}"})
   P.append({"scene": {"kind": "gen", "seed": 424299, "profile": "free", "override": {"solvers": ("Newton",)}, "opt": {"enable": int(E.mjENBL_SLEEP)}}, "tag": "gen:sleep"})
   return P
+
+
+# directed (target, program) pairs: configurations that differ from the target in exactly one specialisation argument
+DIRECTED = [
+  ("spheres:condim6:elliptic:sparse", ["spheres:condim4:elliptic:sparse"]),
+  ("spheres:condim4:elliptic:sparse", ["spheres:condim6:elliptic:sparse", "spheres:condim3:elliptic:sparse"]),
+  ("spheres:condim3:elliptic:sparse", ["spheres:condim1:elliptic:sparse", "spheres:condim6:elliptic:sparse"]),
+  ("spheres:condim6:pyramidal:dense", ["spheres:condim4:elliptic:dense:cg", "spheres:condim6:elliptic:sparse"]),
+  ("collision", ["collision:sap_tile", "collision:sap_seg:filter5", "collision:starved:nowarn"]),
+  ("humanoid", ["humanoid:cg:sparse", "humanoid:njmax48", "gen:bigtree"]),
+  ("constraints", ["constraints:sparse:elliptic", "gen:sleep"]),
+  ("gen:bigtree", ["humanoid", "pendula"]),
+]
 
 
 def cases(tier, seed):
@@ -86,6 +120,10 @@ def cases(tier, seed):
     # directed: the box scenes follow each other (NATIVECCD on after off and vice versa)
     if i < 4:
       t, prog = (0, [1, 5]) if i % 2 == 0 else (1, [0, 4])
+    elif i < 4 + len(DIRECTED):
+      tt, pp = DIRECTED[i - 4]
+      tags = [x["tag"] for x in P]
+      t, prog = tags.index(tt), [tags.index(x) for x in pp]
     out.append({"id": f"p{seed}_{i}", "target": t, "program": prog, "seed": seed * 1000 + i, "nworld": 1 + i % 2, "weight": 1})
   return out
 
